@@ -18,8 +18,18 @@ def build_driver():
     return rc == 0, out
 
 
-def run_model(text, cfg=(0, 0), timeout=1200):
-    rc, out = lib.sh([DRV, str(int(cfg[0])), str(int(cfg[1]))], stdin=text, timeout=timeout)
+NFLAGS = 5
+FLAG_NAMES = ("maskedAccessThrows", "convertDense", "sliceEmptyBackward", "ifelseConstRead", "maskOnMaskedHonoured")
+AS_WRITTEN = (0,) * NFLAGS
+
+
+def cfg_args(cfg):
+    c = tuple(cfg) + (0,) * (NFLAGS - len(cfg))
+    return [str(int(x)) for x in c]
+
+
+def run_model(text, cfg=AS_WRITTEN, timeout=1200):
+    rc, out = lib.sh([DRV] + cfg_args(cfg), stdin=text, timeout=timeout)
     return rc, out.split("\n")
 
 
@@ -69,7 +79,7 @@ def server(kind, cls="IntArray", cfg=(0, 0)):
     sv = _servers.get(key)
     if sv is None or sv.p.poll() is not None:
         if kind == "model":
-            sv = Server([DRV, str(int(cfg[0])), str(int(cfg[1]))])
+            sv = Server([DRV] + cfg_args(cfg))
         elif kind == "real":
             sv = Server([pyimath.PYTHON, HARNESS, "--mode", "real", "--cls", cls, "--flush"], env=pyimath.env())
         else:
